@@ -6,6 +6,8 @@ import (
 	"math/big"
 
 	"github.com/meshplus/bitxhub-model/pb"
+	"github.com/meshplus/bitxhub/internal/ledger"
+	"github.com/meshplus/bitxhub/internal/repo"
 	zz "github.com/meshplus/bitxhub/internal/zzverif"
 )
 
@@ -14,12 +16,20 @@ import (
 // gas fee to the admin, revert on unpayable fee, pay-what-is-left) with symbolic balances, amounts
 // and gas price, senders / receivers chosen among two users and the admin (so a receiver may
 // already have been touched by the first transaction's fee or credit). Value is never created,
-// nobody goes negative, and a FAILED transfer moves nothing except the sender's fee.
+// nobody goes negative, and a FAILED transfer moves nothing except the sender's fee. Afterwards the
+// block is committed and a restarted node (cold cache, same store) reads the same balances (C01, C10).
+// zz:also C01 C10
 func ZZH_C14_block() {
 	price := zz.BigInt("gasPrice")
 	zz.Assume(zz.BigLe(big.NewInt(0), price))
 	zz.Assume(zz.BigLe(price, big.NewInt(5)))
-	exec := zzNewExec(1, price)
+	rp := &repo.Repo{Key: &repo.Key{PrivKey: zzKey{}}}
+	stateStore := zz.NewStore()
+	lg, err := ledger.New(rp, zz.NewStore(), stateStore, zz.NewBlockFile(), nil, zz.Logger())
+	if err != nil {
+		panic(err)
+	}
+	exec := zzNewExecOn(lg, 1, price)
 	addrs := []string{zzUsers[0], zzUsers[1], zzAdmins[0]}
 	sum := func() *big.Int {
 		s := new(big.Int)
@@ -68,5 +78,15 @@ func ZZH_C14_block() {
 		}
 		zz.Cover("C14.block.failed", receipt.Status == pb.Receipt_FAILED)
 		zz.Cover("C14.block.ok", receipt.Status == pb.Receipt_SUCCESS)
+	}
+	// what this node now reads is what gets persisted: a node restarted after the block reads the same balances
+	acc2, root2 := exec.ledger.FlushDirtyData()
+	_ = exec.ledger.StateLedger.Commit(2, acc2, root2)
+	cold, err := ledger.NewSimpleLedger(rp, stateStore, nil, zz.Logger())
+	if err != nil {
+		panic(err)
+	}
+	for _, a := range addrs {
+		zz.Assert("C01.restarted-node-reads-the-same-balances", zz.BigEq(cold.GetBalance(zzAddr(a)), zzBalance(exec, a)))
 	}
 }
